@@ -5,6 +5,7 @@ import (
 	"compress/flate"
 	"crypto/tls"
 	"fmt"
+	"io"
 	"net"
 	"strings"
 	"sync"
@@ -155,6 +156,9 @@ type clientV2 struct {
 	// connections based on negotiated features
 	tlsConn     *tls.Conn
 	flateWriter *flate.Writer
+	// what Writer buffers for: the original connection, tlsConn, or the
+	// compressing writer on top of them
+	outputDest io.Writer
 
 	// reading/writing interfaces
 	Reader *bufio.Reader
@@ -209,6 +213,8 @@ func newClientV2(id int64, conn net.Conn, nsqd *NSQD) *clientV2 {
 
 		Reader: bufio.NewReaderSize(conn, defaultBufferSize),
 		Writer: bufio.NewWriterSize(conn, defaultBufferSize),
+
+		outputDest: conn,
 
 		OutputBufferSize:    defaultBufferSize,
 		OutputBufferTimeout: nsqd.getOpts().OutputBufferTimeout,
@@ -559,7 +565,9 @@ func (c *clientV2) SetOutputBuffer(desiredSize int, desiredTimeout int) error {
 		if err != nil {
 			return err
 		}
-		c.Writer = bufio.NewWriterSize(c.Conn, c.OutputBufferSize)
+		// keep writing to the negotiated transport (TLS / snappy / deflate),
+		// never to the connection underneath it
+		c.Writer = bufio.NewWriterSize(c.outputDest, c.OutputBufferSize)
 	}
 
 	return nil
@@ -603,6 +611,7 @@ func (c *clientV2) UpgradeTLS() error {
 	c.tlsConn = tlsConn
 
 	c.Reader = bufio.NewReaderSize(c.tlsConn, defaultBufferSize)
+	c.outputDest = c.tlsConn
 	c.Writer = bufio.NewWriterSize(c.tlsConn, c.OutputBufferSize)
 
 	atomic.StoreInt32(&c.TLS, 1)
@@ -623,6 +632,7 @@ func (c *clientV2) UpgradeDeflate(level int) error {
 
 	fw, _ := flate.NewWriter(conn, level)
 	c.flateWriter = fw
+	c.outputDest = fw
 	c.Writer = bufio.NewWriterSize(fw, c.OutputBufferSize)
 
 	atomic.StoreInt32(&c.Deflate, 1)
@@ -641,7 +651,12 @@ func (c *clientV2) UpgradeSnappy() error {
 
 	c.Reader = bufio.NewReaderSize(snappy.NewReader(conn), defaultBufferSize)
 	//lint:ignore SA1019 NewWriter is deprecated by NewBufferedWriter, but we're doing our own buffering
-	c.Writer = bufio.NewWriterSize(snappy.NewWriter(conn), c.OutputBufferSize)
+	sw := snappy.NewWriter(conn)
+	// a deflate writer negotiated by an earlier IDENTIFY is replaced, not stacked:
+	// Flush must no longer write its sync markers underneath the snappy stream
+	c.flateWriter = nil
+	c.outputDest = sw
+	c.Writer = bufio.NewWriterSize(sw, c.OutputBufferSize)
 
 	atomic.StoreInt32(&c.Snappy, 1)
 
